@@ -112,15 +112,22 @@ class NoLog:
 _saved = {}
 
 
+_ABSENT = object()
+
+
 def patch(**kw):
     kw.setdefault("logging", NoLog)
     for k, v in kw.items():
         if k not in _saved:
-            _saved[k] = getattr(IPC, k)
+            _saved[k] = getattr(IPC, k, _ABSENT)       # a name the module takes from builtins (bytearray, bytes) can be shadowed
         setattr(IPC, k, v)
 
 
 def unpatch():
     for k, v in _saved.items():
-        setattr(IPC, k, v)
+        if v is _ABSENT:
+            if hasattr(IPC, k):
+                delattr(IPC, k)
+        else:
+            setattr(IPC, k, v)
     _saved.clear()
